@@ -234,6 +234,52 @@ example : ∃ e, (nextWriter witWc 1 [] []).1 = .error e := (seq_requests_fail w
 /-- non-vacuity of `seq_requests_fail`: a ping after the close fails -/
 example : (writeControl witWc 9 [112, 105, 110, 103] 0).1.isSome :=
   (seq_requests_fail witWc witWc_err).2.2.2.1 9 [112, 105, 110, 103] 0
+
+/-! an open message writer when the close frame goes out -/
+
+/-- NextWriter(BinaryMessage); Write 01 02 03 (stays in the 4096-byte buffer); WriteControl(close 1000) -/
+def witOpsOpen : List Op :=
+  [.nextWriter 2 [] [],
+   .write 0 [1, 2, 3] [] false,
+   .writeControl 8 [3, 232] 0]
+/-- the client `witW0` after that program: handle 0 is a live binary writer with three buffered bytes,
+    and the close frame is on the wire -/
+def witWo : W := run witW0 witOpsOpen
+
+/-- the state really is as described: handle 0 is live, the writer is still the connection's current
+    writer, the wire is exactly the masked close frame, and the sticky error is ErrCloseSent -/
+example : witWo.handles.length = 1 ∧ witWo.writer.isSome ∧ witWo.wire = witClose ∧
+    witWo.writeErr = some .closeSent := by decide +kernel
+/-- witness for `open_writer_fails_at_close`: the sticky error is set -/
+def witWo_err : witWo.writeErr.isSome := by decide +kernel
+
+/-- non-vacuity of `open_writer_fails_at_close`: Close on the live handle 0 of `witWo` returns an error -/
+example : (hClose witWo 0 [] []).1.isSome := open_writer_fails_at_close witWo witWo_err 0 [] []
+/-- … concretely ErrCloseSent, and the wire still is (hence ends with) the close frame: the three
+    buffered bytes of the binary message never reach the transport -/
+example : (hClose witWo 0 [] []).1 = some .closeSent ∧ (hClose witWo 0 [] []).2.wire = witClose ∧
+    (hClose witWo 0 [] []).2.tcalls = witWo.tcalls := by decide +kernel
+/-- … and the close frame is 88 82 <key> <masked 03 e8> -/
+example : witClose = [0x88, 0x82, 0x37, 0xfa, 0x21, 0x3d, 0x34, 0x12] := by decide
+
+/-- a client with a 256-byte write buffer, on which 300 bytes are written (more than the buffer): the
+    first fragment of the binary message is already on the wire when the close frame (second masking
+    key) goes out -/
+def witW0s : W := { newW false 256 false false with keys := [0x37, 0xfa, 0x21, 0x3d, 1, 2, 3, 4] }
+def witOpsOpen2 : List Op :=
+  [.nextWriter 2 [] [],
+   .write 0 (List.replicate 300 7) [] false,
+   .writeControl 8 [3, 232] 0]
+def witWo2 : W := run witW0s witOpsOpen2
+def witWo2_err : witWo2.writeErr.isSome := by decide +kernel
+/-- the wire of `witWo2`: a non-final binary fragment (02 fe 01 00 = no FIN, masked, 256 bytes), then the close frame -/
+example : witWo2.wire.take 4 = [0x02, 0xfe, 0x01, 0x00] ∧ witWo2.wire.length = 264 + 8 ∧
+    witWo2.wire.drop 264 = [0x88, 0x82, 1, 2, 3, 4, 2, 234] := by decide +kernel
+/-- non-vacuity of `open_writer_fails_at_close`, second instance: Close on the half-sent message fails … -/
+example : (hClose witWo2 0 [] []).1.isSome := open_writer_fails_at_close witWo2 witWo2_err 0 [] []
+/-- … with ErrCloseSent, the final fragment is never sent, and the wire still ends with the close frame -/
+example : (hClose witWo2 0 [] []).1 = some .closeSent ∧ (hClose witWo2 0 [] []).2.wire = witWo2.wire ∧
+    (hClose witWo2 0 [] []).2.wire.drop 264 = [0x88, 0x82, 1, 2, 3, 4, 2, 234] := by decide +kernel
 end NonVacuity
 
 end WS.Props.C09
